@@ -253,3 +253,29 @@ PROPS["C02"] = simple(
                "item may display content the generator planted as a forgery. The stamp is written at serve time only, so it cannot be forged by content. Sampled over attack constructions, fetch orders and cache sizes.",
     level_note="Trusted: kit/sim + kit/world stamping. Objects of one or two fields are not stamped (servitor treats them as stubs and always re-fetches them; a third key would change that). Only honest (input, source) pairs are passed.",
 )
+
+
+def ui_variants(preloads):
+    def f(tier, seed, s):
+        import os
+        hook = [os.path.join(s.bin, "dumphook"), "%url"]
+        return [dict(name="preload%d" % p, config=dict(preload=p, timeout=5, cache=128, hook=hook), shards=(3 if tier == "quick" else 6)) for p in preloads]
+    return f
+
+
+PROPS["C07"] = simple(
+    "ui", "TestVerifC07", "exploration",
+    "ui.State started through Subcommand (open / feed) against generated multi-host worlds (threads with 0..8 ancestors, 0..15 paged replies, actors with 0..30 outbox activities, "
+    "multi-author posts, audiences, missing/failing collections, 0..30 % anomalous mentions), then 150 (quick) / 400 (thorough) key tokens per session: 70 % navigation (j k g h l space "
+    "c r a o p b), numbers incl. 0, 0..39 and 19..22-digit ones followed by Enter, '.', another key, Esc or Backspace, :open <address|@handle|nowhere>, :feed <name>, :garbage, Esc, "
+    "Backspace, arbitrary bytes 0..255; terminal resizes in between; preload_amount in {1, 2, 5} (one process each). Non-trivial: every session; distinct = (world, entry, length).",
+    variants=ui_variants([5, 1, 2]),
+    tools=["dumphook"],
+    floor=dict(evaluations=5000, distinct=20, tokens_checked=2000),
+    timeout=dict(quick=600, thorough=3000),
+    technique="runtime monitor: executable keymap reference model over the world's reference views, compared with the UI state after every key once loads have settled (logical quiescence)",
+    level_text="After every key (and after background loads have settled: mode not loading/opening, no page load flag set, no connection in flight) the highlighted item, cursor position, "
+               "history position/length, input mode and buffer read under the UI lock must equal those of a 250-line keymap model evaluated over the world's ground truth. A panic or a "
+               "session that never settles is a violation. Sampled over worlds and key histories.",
+    level_note="Trusted: the keymap model in harness/ui/verif_driver_test.go (it fixes only what the README keymap and the statement fix) and kit/world's views. Items are identified by generator labels through their public methods. preload_amount >= 1.",
+)
